@@ -44,6 +44,11 @@ package pruner
 //@   modifies s.checkpoint
 //@   modifies s.checkpoint.FailedHeaders
 //@   ensures s.checkpoint.LastPrunedHeight >= old(s.checkpoint.LastPrunedHeight)
+// A failed height is forgotten only when its header is gone (strictly below the tail the checkpoint
+// moves to): a failed block at or above the checkpoint stays recorded, hence is retried.
+//@   ensures forall h uint64 :: old(has(s.checkpoint.FailedHeaders, h)) && h >= s.checkpoint.LastPrunedHeight ==> has(s.checkpoint.FailedHeaders, h)
+//@   loop 1: invariant s.checkpoint == old(s.checkpoint) && s.checkpoint.FailedHeaders == old(s.checkpoint.FailedHeaders) && s.checkpoint.LastPrunedHeight == tail.Height() && tail.Height() >= old(s.checkpoint.LastPrunedHeight)
+//@   loop 1: invariant forall h uint64 :: old(has(s.checkpoint.FailedHeaders, h)) && h >= tail.Height() ==> has(s.checkpoint.FailedHeaders, h)
 
 //@ func (*Service).updateCheckpoint
 //@   property C14
